@@ -19,6 +19,7 @@ import SfModel.Basic
 import SfModel.SmallSession
 import SfModel.Avr
 import SfModel.Ircam
+import SfModel.Paf
 import Driver.Util
 open Sf (hexBytes hexFixed parseHexBytes parseHexNat Byte)
 open Sf.Small
@@ -70,9 +71,17 @@ def ircam : Container where
   parse := Sf.Ircam.parse
   rate := Sf.Ircam.rateQ
 
+def paf : Container where
+  spec toks :=
+    let c : Sf.Paf.Cfg := { codec := codecOf toks, endian := kvNat toks "endian" 0, ch := kvNat toks "ch" 1, sr := kvNat toks "sr" 1 }
+    if decide c.wf then some (Sf.Paf.spec c) else none
+  parse := Sf.Paf.parse
+  rate r := some r
+
 def containerOf (s : String) : Option Container :=
   if s == "avr" then some avr
   else if s == "ircam" then some ircam
+  else if s == "paf" then some paf
   else none
 
 def answer (ct : Container) (line : String) : String :=
